@@ -131,6 +131,30 @@ theorem sortBlks_slice {c : Chain} (hc : c.WF) (st : Nat) : ∀ k, sortBlks (c.s
       have := hc.num _ _ h
       omega
 
+/-! ### linked runs -/
+
+theorem linked_of_links : ∀ l : List Blk,
+    (∀ (i : Nat) (a b : Blk), l[i]? = some a → l[i + 1]? = some b → b.parent = a.hash) → linked l = true
+  | [], _ => rfl
+  | [_], _ => rfl
+  | a :: b :: rest, h => by
+    unfold linked
+    have h0 : b.parent = a.hash := h 0 a b rfl rfl
+    have ih := linked_of_links (b :: rest) (fun i x y hx hy => h (i + 1) x y hx hy)
+    rw [ih, h0]
+    simp
+
+/-- a slice of a well-formed chain is one hash-linked run -/
+theorem linked_slice {c : Chain} (hc : c.WF) (st k : Nat) : linked (c.slice st k) = true := by
+  apply linked_of_links
+  intro i a b ha hb
+  rw [slice_getElem?] at ha hb
+  split at ha
+  · split at hb
+    · exact hc.link (st + i) a b ha hb
+    · cases hb
+  · cases ha
+
 /-! ### `load` against an honest source -/
 
 theorem go_flags : ∀ (ps : List (Nat × Nat)) (s : St) (acc : List Blk) (e se : Bool),
@@ -222,7 +246,7 @@ theorem load_upper {c : Chain} (hc : c.WF) (t : Task) (s s' : St) (lh : String) 
     (hlb : lim ≤ t.batch) (h : load t s lh st lim = (.blocks bs, s')) :
     ∀ b ∈ bs, b.num < st + lim := by
   obtain ⟨bs0, e, se, hg, hcase⟩ := load_cases t s s' lh st lim _ h
-  rcases hcase with ⟨_, h⟩ | ⟨_, _, h⟩ | ⟨_, _, ⟨_, h⟩ | ⟨first, rest, hsb, ⟨_, h⟩ | ⟨_, h⟩⟩⟩ <;> try cases h
+  rcases hcase with ⟨_, h⟩ | ⟨_, _, h⟩ | ⟨_, _, ⟨_, h⟩ | ⟨first, rest, hsb, ⟨_, h⟩ | ⟨_, _, h⟩ | ⟨_, _, h⟩⟩⟩ <;> try cases h
   intro b hbm
   rw [← hsb, mem_sortBlks] at hbm
   have := go_members hc (parts t.batch t.conc st lim) s [] false false hsc b (by rw [hg]; exact hbm)
@@ -236,13 +260,13 @@ theorem load_chain {c : Chain} (hc : c.WF) (t : Task) (s s' : St) (lh : String) 
     (hsc : ScriptOK c s.script) (hb : 1 ≤ t.batch) (hcc : 1 ≤ t.conc) (hcb : t.conc * t.batch < 2 ^ 63)
     (hl : 1 ≤ lim) (hlb : lim ≤ t.batch) (hs : st + lim < 2 ^ 63) (hst : 1 ≤ st)
     (h : load t s lh st lim = (lr, s')) :
-    lr = .scriptEnd ∨ lr = .err ∨
+    lr = .scriptEnd ∨ (lr = .err ∧ (load.go (parts t.batch t.conc st lim) s [] false false).2.1 = true) ∨
     ∃ k, 1 ≤ k ∧ k ≤ lim ∧ st + k - 1 ≤ c.head ∧
       ((lr = .reorg ∧ lh ≠ c.hashAt (st - 1)) ∨ (lr = .blocks (c.slice st k) ∧ lh = c.hashAt (st - 1))) := by
   obtain ⟨bs0, e, se, hg, hcase⟩ := load_cases t s s' lh st lim _ h
-  rcases hcase with ⟨_, h⟩ | ⟨_, _, h⟩ | ⟨rfl, rfl, hcase⟩
+  rcases hcase with ⟨_, h⟩ | ⟨_, he, h⟩ | ⟨rfl, rfl, hcase⟩
   · exact .inl h
-  · exact .inr (.inl h)
+  · exact .inr (.inl ⟨h, by rw [hg]; exact he⟩)
   right; right
   obtain ⟨hp1, hp2, hp3⟩ := parts_spec t.batch t.conc st lim hb hcc hl hlb hs hcb
   obtain ⟨_, _, hbs, hhd⟩ := go_chain _ st s [] false false bs0 s' hsc hp3 hg
@@ -271,7 +295,8 @@ theorem load_chain {c : Chain} (hc : c.WF) (t : Task) (s s' : St) (lh : String) 
   · have : first = b0 := by
       rw [hsb] at hfirst; simpa using hfirst
     subst this
-    rcases hcase with ⟨hbad, h⟩ | ⟨hbad, h⟩
+    rcases hcase with ⟨hlk, _⟩ | ⟨_, hbad, h⟩ | ⟨_, hbad, h⟩
+    · rw [← hsb, linked_slice hc] at hlk; cases hlk
     · left
       refine ⟨h, ?_⟩
       unfold badParent at hbad
